@@ -14,7 +14,7 @@ ASSUMPTIONS = ["oracle: the dense array itself (element-wise ==, NaN matches NaN
 REQUIRED_FEATURES = ["input_not_contiguous", "producer_binary_nan", "single_run", "all_different", "nan_values", "signed_zero", "producer_slice", "producer_step", "producer_binary", "producer_concat",
                      "producer_mask", "result_needed_rejoin", "producer_step_of_unjoined_operand"]
 BOUNDS = {"quick": "all arrays L<=6 (bool, int8, int64, uint8, uint64, float16/32/64; 3-letter alphabets, 4 for float32/64 at L<=5); producers over all "
-                   "int64 arrays L<=4: every in-range slice with steps +-1..3, add/maximum/equal of every pair (L<=3), scalar ops, concatenate pairs, run-length masks",
+                   "int64 arrays L<=4: every in-range slice with steps +-1..3, add/maximum/equal of every pair (L<=3), scalar ops, concatenate pairs, run-length masks; inputs as reversed / strided / matrix-column views; NaN / inf binary producers; stepped slices of an unjoined operand",
           "thorough": "L<=8 (3-letter) / L<=6 (4-letter); producers L<=5"}
 
 
